@@ -335,7 +335,13 @@ func c17LinearCase(rng *rand.Rand) c17Case {
 	case 0: // reversed
 		mn, mx = mx, mn
 		c.Levels = nil
-	case 1: // degenerate
+	case 1: // degenerate: Nice and Ticks widen it to [mn-0.5, mn+0.5], i.e. width 1, so the
+		// property's domain |centre|/width <= 1e3 means |mn| <= 1e3 (beyond that the 1e-10 slack
+		// is below the rounding error of the ends: thorough seed 1 produced Min = Max = 8389871,
+		// base 5, whose niced Max 8389871.6 is not a float and falls just below its own tick)
+		if math.Abs(mn) > 1e3 {
+			mn = math.Mod(mn, 1e3)
+		}
 		mx = mn
 		c.Levels = nil
 	case 2:
